@@ -158,7 +158,9 @@ func (h *Header) TakeFrom(src []byte) ([]byte, error) {
 		return nil, err
 	}
 
-	wantedSize := int(h.archiveCount * archiveInfoListSize)
+	// NOTE: compute in int, not uint32, so that a huge count cannot wrap
+	// around to a small size and make us allocate a huge list below.
+	wantedSize := int(h.archiveCount) * archiveInfoListSize
 	if len(src) < wantedSize {
 		return nil, &WantLargerBufferError{WantedBufSize: metaSize + wantedSize}
 	}
